@@ -86,9 +86,11 @@ package client
 //@   ensures[C09.closed_channel_is_error] bound("ok") && !ok ==> result.1 != nil
 
 //@ func client.(*RpcMultiplexer).NewStreamReadWriter
+//@   inline
 //@   nopanic[C13.nopanic C14.nopanic]
 //@   makechan 0 tag streamId class client.handlers
 //@   ensures[C09.fail_fast C14.nothing_left_on_error] result.3 != nil ==> result.1 == nil && result.2 == nil && (bound("streamId") ==> !(streamId in rm.handlers))
+//@   ensures[C06.no_write_on_open_of_reader] ncalls("(types.RpcReadWriter).Write") == old(ncalls("(types.RpcReadWriter).Write"))
 //@   ensures[C05.fresh_registration] result.3 == nil ==> result.1 != nil && result.2 != nil && result.0 in rm.handlers && tag(rm.handlers[result.0]) == result.0
 
 // teardown closure: unregisters exactly this stream's id
@@ -162,6 +164,7 @@ package client
 //@   requires ctx != nil && rw != nil && teardown != nil
 //@   requires forall j Int :: 0 <= j && j < len(statsHandlers) ==> statsHandlers[j] != nil
 //@   makechan 0 tag 0 class client.rCh
+//@   ensures[C06.no_write_on_creation] ncalls("(types.RpcReadWriter).Write") == old(ncalls("(types.RpcReadWriter).Write"))
 //@   ensures[C14.one_reader C02.one_reader] ncalls("go:(*github.com/avos-io/goat/internal/client.clientStream).readLoop") == old(ncalls("go:(*github.com/avos-io/goat/internal/client.clientStream).readLoop")) + 1
 
 //@ func client.(*clientStream).readLoop
